@@ -84,3 +84,51 @@ func H_TableInt32() {
 func H_TableUint32() {
 	vTableRoundTrip[uint32](func(name string) uint32 { return vrt.Uint32(name) })
 }
+
+// H_TableAdversarial (C10, concrete): pairs of different rows that collide
+// under plausible but wrong row keys (decimal or hexadecimal concatenation
+// without separators, sums, permutations, a row that is a prefix of the other,
+// sign, length-prefixed forms). Every pair goes into a fresh table; both rows
+// must decode to themselves.
+func H_TableAdversarial() {
+	pairs := [][2][]int32{
+		{{2, 138}, {21, 38}},
+		{{1, 23}, {12, 3}},
+		{{0, 1, 97, 97, 12}, {0, 1, 97, 971, 2}},
+		{{1, 2}, {2, 1}},
+		{{1, 2}, {12}},
+		{{1, 2}, {1, 2, 0}},
+		{{0, 5}, {5}},
+		{{3, 4}, {4, 3}},
+		{{1, 6}, {2, 5}},
+		{{-1, 1}, {1, -1}},
+		{{1, -1}, {1, 1}},
+		{{16, 1}, {1, 97}},
+		{{255, 1}, {15, 241}},
+		{{128}, {1, 0}},
+		{{127, 1}, {255}},
+		{{300}, {44, 1}},
+		{{1, 10}, {11, 0}},
+		{{10, 0}, {1, 0, 0}},
+		{{2147483647}, {-1}},
+		{{65536}, {1, 0, 0}},
+	}
+	for pi, pr := range pairs {
+		t := newTable[int32]()
+		t.AddRow(0, pr[0])
+		t.AddRow(1, pr[1])
+		arr := t.Array()
+		for i := 0; i < 2; i++ {
+			off := int(arr[i])
+			ok := off >= 2 && off < len(arr) && int(arr[off]) == len(pr[i]) && off+len(pr[i]) < len(arr)
+			if ok {
+				for j := range pr[i] {
+					ok = ok && arr[off+1+j] == pr[i][j]
+				}
+			}
+			vrt.Observe("pair", pi)
+			vrt.Assert(ok, "different-rows-decode-to-themselves")
+		}
+	}
+	vrt.Reach("pairs-checked")
+}
